@@ -114,3 +114,35 @@ package couchbase
 //@ ensures.keys_shape[C14] str(cbm.instanceAll) == helpers.Prefix + config.Dcp.Group.Name + ":" + "instance" + ":all"
 //@ ensures.registered[C14] dcalls("couchbase.(*cbMembership).register") == 1 && darg("couchbase.(*cbMembership).register", 0, h) == cbm
 //@ modifies calls("couchbase.(*cbMembership).register"), calls("couchbase.(*cbMembership).createIndex"), calls("couchbase.CreatePath"), calls("couchbase.UpdateDocument"), calls("couchbase.CreateDocument"), calls("gocbcore.(*Agent).MutateIn"), calls("gocbcore.(*Agent).Set"), calls(couchbase.AsyncOp.Wait), calls(gocbcore.PendingOp.Cancel), calls(select.case), calls(couchbase.Client.GetMetaAgent), calls("couchbase.(*cbMembership).startHeartbeat"), calls("couchbase.(*cbMembership).startMonitor"), calls("time.(Time).UnixNano"), calls(EventBus.Bus.SubscribeAsync)
+
+// ---------- loading one vBucket's checkpoint document (C02, C14) ----------
+
+//@ func (*cbMetadata).Load$1
+//@ params vbID
+//@ freevars s bucketUUID exist state wg
+//@ props C02 C14
+//@ requires s != nil && s.config != nil && s.client != nil && state != nil && wg != nil
+//@ let data = dret("couchbase.GetXattrs", 0, 0)
+//@ let readErr = dret("couchbase.GetXattrs", 0, 1)
+//@ let decoded = readErr == nil && uninterp("json.decerr", data) == nil
+//@ check.key[C02,C14] dcalls("couchbase.getCheckpointID") == 1 && darg("couchbase.getCheckpointID", 0, vbID) == vbID && darg("couchbase.getCheckpointID", 0, groupName) == s.config.Dcp.Group.Name
+//@ check.read_same_vb[C02] dcalls("couchbase.GetXattrs") == 1 && darg("couchbase.GetXattrs", 0, id) == dret("couchbase.getCheckpointID", 0, 0) && darg("couchbase.GetXattrs", 0, path) == helpers.Name && darg("couchbase.GetXattrs", 0, scopeName) == s.scopeName && darg("couchbase.GetXattrs", 0, collectionName) == s.collectionName
+//@ check.stored_under_own_vb[C02] has(state, vbID) && forall o uint16 :: o != vbID ==> has(state, o) == old(has(state, o)) && (has(state, o) ==> state[o] == old(state[o]))
+//@ check.stored_document[C02] decoded ==> state[vbID] == uninterp("json.dec", data)
+//@ check.missing_is_empty[C02] !decoded ==> state[vbID] != nil && state[vbID].Checkpoint != nil && state[vbID].Checkpoint.Snapshot != nil && state[vbID].Checkpoint.VbUUID == 0 && state[vbID].Checkpoint.SeqNo == 0 && state[vbID].Checkpoint.Snapshot.StartSeqNo == 0 && state[vbID].Checkpoint.Snapshot.EndSeqNo == 0 && state[vbID].BucketUUID == bucketUUID
+//@ check.exist_flag[C02] exist == (old(exist) || decoded)
+//@ let kv = uninterp("tag.as.ptr.gocbcore.KeyValueError")
+//@ check.read_errors_stop[C02] readErr == nil || (upred("errors.as", readErr, kv) && cast(uninterp("errors.as.target", readErr, kv), "*gocbcore.KeyValueError").StatusCode == 1)
+//@ modifies anything
+
+//@ func (*cbMetadata).Load
+//@ params s vbIds bucketUUID
+//@ props C02
+//@ requires s != nil
+//@ loop 1
+//@   invariant.spawned 0 <= rangeindex + 1 && rangeindex + 1 <= len(vbIds) && dcalls("go:couchbase.(*cbMetadata).Load$1") == rangeindex + 1
+//@   invariant.each forall j int :: 0 <= j && j <= rangeindex ==> darg("go:couchbase.(*cbMetadata).Load$1", j, vbID) == vbIds[j] && captured(darg("go:couchbase.(*cbMetadata).Load$1", j, 0), "couchbase.(*cbMetadata).Load$1", "s") == s && captured(darg("go:couchbase.(*cbMetadata).Load$1", j, 0), "couchbase.(*cbMetadata).Load$1", "bucketUUID") == bucketUUID
+//@   modifies calls("go:couchbase.(*cbMetadata).Load$1")
+//@ ensures.every_vbucket_once[C02] dcalls("go:couchbase.(*cbMetadata).Load$1") == len(vbIds) && forall j int :: 0 <= j && j < len(vbIds) ==> darg("go:couchbase.(*cbMetadata).Load$1", j, vbID) == vbIds[j] && captured(darg("go:couchbase.(*cbMetadata).Load$1", j, 0), "couchbase.(*cbMetadata).Load$1", "s") == s && captured(darg("go:couchbase.(*cbMetadata).Load$1", j, 0), "couchbase.(*cbMetadata).Load$1", "bucketUUID") == bucketUUID && captured(darg("go:couchbase.(*cbMetadata).Load$1", j, 0), "couchbase.(*cbMetadata).Load$1", "state") == result0
+//@ ensures.no_error[C02] result2 == nil && result0 != nil
+//@ modifies calls("go:couchbase.(*cbMetadata).Load$1")
